@@ -83,7 +83,7 @@ class CGraph(engine.Graph):
             if e.generator: B.append('generator = 1')
             if e.deps: B.append('deps = ' + e.deps)
             if e.depfile: B.append('depfile = ' + e.depfile)
-            if e.rsp: B += ['rspfile = ' + e.rsp, 'rspfile_content = ' + e.rspcontent()]
+            if e.rsp: B += ['rspfile = ' + e.rsp, 'rspfile_content = ' + (e.rspcontent() or '$nothing')]
             return [ind + b for b in B]
         seen = set()
         for e in s.edges:
